@@ -142,7 +142,35 @@ Proof.
       destruct (d1 s) as [[|]|]; reflexivity.
 Qed.
 
-(* ---- the known-end prologue, _GD_Extrapolate and the limit arithmetic ---- *)
+(* ---- the whole of _GD_GetIndex assembled from the generated pieces is get_index ---- *)
+Definition get_index_shape (fuel : nat) (v : Z -> option Q) (value : Q) (fs fe : Z) : result :=
+  let '(n0, lowv) := rd v fs in                                 (* n = _GD_DoField(.., field_start, 1, .., &low_v) *)
+  let e0 := env_of value (-1) fs fs fe lowv 0 lowv 0 n0 0 in
+  if gi_c1 e0 then EDomain                                      (* if (n == 0) GD_E_DOMAIN *)
+  else
+    let '(n1, highv) := rd v (fe - 1) in                        (* n = _GD_DoField(.., field_end - 1, 1, .., &high_v) *)
+    let e1 := env_of value (-1) fs fs fe lowv highv lowv 0 n1 0 in
+    if gi_c3 e1 then                                            (* if (n > 0) *)
+      if gi_c4 e1 then ERange                                   (*   if (high_v == low_v) GD_E_RANGE *)
+      else
+        let dz := gi_a1 e1 in                                   (*   dir = (high_v < low_v) ? 1 : 0 *)
+        let e2 := env_of value dz fs fs fe lowv highv lowv 0 n1 0 in
+        if gi_c5 e2 then extrapolate v value fs false           (*   _GD_Extrapolate(.., low, 0) *)
+        else if gi_c6 e2 then extrapolate v value (fe - 1) true (*   _GD_Extrapolate(.., high - 1, 1) *)
+        else loop2 fuel v value (negb (dz =? 0)) (St2 fs fe lowv highv)
+    else loop1 true true v value fs lowv fuel (St1 fs fe lowv None).
+
+Lemma get_index_shape_eq fuel v value fs fe :
+  get_index_shape fuel v value fs fe = get_index true true fuel v value fs fe.
+Proof.
+  unfold get_index_shape, get_index, rd, env_of, gi_c1, gi_c3, gi_c4, gi_a1, gi_c5, gi_c6. simpl.
+  destruct (v fs) as [lowv|]; simpl; [|reflexivity].
+  destruct (v (fe - 1)) as [highv|]; simpl; [|reflexivity].
+  destruct (Qeq_bool highv lowv); [reflexivity|].
+  destruct (Qltb highv lowv); simpl; rewrite ?orb_false_r; reflexivity.
+Qed.
+
+(* ---- _GD_Extrapolate and the limit arithmetic ---- *)
 Lemma ex_shape : forall e,
   ex_c1 e = (e_n e <? 2) /\
   ex_a0 e = (inject_Z (e_limit e) + (e_value e - (if negb (e_eof e =? 0) then e_d1 e else e_d0 e)) / (e_d1 e - e_d0 e))%Q.
@@ -162,3 +190,23 @@ Proof.
   split; [vm_compute; reflexivity|]. split; [vm_compute; reflexivity|]. split; [vm_compute; reflexivity|].
   split; [exact step2_shape_eq|exact step1_shape_eq].
 Qed.
+
+(* gd_framenum_subset64: limit defaults, spf scaling, the empty-range test, the final division *)
+Definition env_lim (spf fo nf fs fe : Z) : env := mkEnv 0 0 0 0 fs fe spf 0 0 0 0 fo nf 0 0 0 0 0 0 0 0.
+Definition framenum_shape (fuel : nat) (v : Z -> option Q) (spf fo nf : Z) (value : Q) (fs fe : Z) : result :=
+  let e := env_lim spf fo nf fs fe in
+  let s := if fs_c2 e then fs_a0 e else fs_a1 e in              (* field_start == 0 ? frame_offset * spf : field_start * spf *)
+  let en := if fs_c3 e then fs_a2 e else fs_a3 e in             (* field_end == 0 ? (nframes + 1) * spf - 1 : (field_end + 1) * spf - 1 *)
+  if fs_c4 (env_lim spf fo nf s en) then EDomain                (* field_end - field_start < 2 *)
+  else match get_index true true fuel v value s en with
+       | Ok q => Ok (q / inject_Z spf)%Q                        (* _GD_GetIndex(..) / spf *)
+       | r => r
+       end.
+
+Lemma framenum_shape_eq fuel v spf fo nf value fs fe :
+  framenum_shape fuel v spf fo nf value fs fe = framenum true true fuel v spf fo nf value fs fe.
+Proof. reflexivity. Qed.
+
+Theorem shape_get_index : forall fuel v value fs fe,
+  get_index_shape fuel v value fs fe = get_index true true fuel v value fs fe.
+Proof. exact get_index_shape_eq. Qed.
